@@ -65,6 +65,11 @@ func TestWinboxTwoChunkMessageInTwoSegments(t *testing.T) {
 	if !run(whole) {
 		t.Fatalf("the message delivered whole (%d bytes) does not match", len(whole))
 	}
+	for _, cut := range []int{262, 257, 258, 259, 200} {
+		if !run(whole[:cut], whole[cut:]) {
+			t.Fatalf("the same message delivered as %d + %d bytes does not match", cut, len(whole)-cut)
+		}
+	}
 	if !run(whole[:262], whole[262:]) {
 		t.Fatalf("the same message delivered as 262 + %d bytes does not match: the matcher said no on a proper prefix instead of asking for more data", len(whole)-262)
 	}
